@@ -340,9 +340,14 @@ func (c *context) RecvMsg() (*protocol.Message, error) {
 		c.cond.Wait()
 	}
 
-	m := c.repMsg
-	c.reqID = 0
-	c.repMsg = nil
+	var m *protocol.Message
+	if id == c.reqID {
+		m = c.repMsg
+		c.reqID = 0
+		c.repMsg = nil
+	}
+	// Otherwise our request was abandoned (canceled, or replaced by a
+	// newer one whose state must be left alone).
 	c.receiveWait = false
 	c.cond.Broadcast()
 
